@@ -2,6 +2,11 @@
 # Regenerates MANIFEST.json from the table below (kept in one place so that it stays valid).
 import json
 checks = {
+ "C07": dict(
+   text="Bounded symbolic model checking of the real client functions (Client.Get, blocks, headers, validate, receipts, logs, traces, Latest, Hash, eth.Block.Tx, eth.Logs.Add, eth.Bytes.Write) against an adversarial node cut at Client.do: every decoded number/hash/index/error code is a solver variable, structural corruptions are case-split under a budget; on acceptance z3 decides consecutive numbers, parent linkage, and that every reported log/receipt/trace is attached to the block and transaction it names; no panic on any answer.",
+   note="The JSON decoder is replaced by the R1 contract (harness/jrpc2/stub.go, same cut natively for replay). limit <= 3 (quick) / 4 (thorough); HTTP status and undecodable-body handling inside do() are outside (behind net/http and goccy).",
+   technique="go/ssa symbolic execution -> SMT (z3) with a nondeterministic node stub; native replay with the same cut",
+   design="5/C07"),
  "C09": dict(
    text="Bounded symbolic model checking of the real ABI type parser (Input.ABIType, parseArray, hasStatic, sizeof) with symbolic array-length digits, and of the real decoder (Result.Scan, scan, GetRow) against a reference ABI encoder and row rule over 18 type trees with all values symbolic; each decoder instance is used twice.",
    note="Type trees and lengths are case-split (catalogue in harness/dig/common.go); values are solver-quantified. Reference encoder/row rule are mine (harness/dig/c09.go), compiled natively for replay. Overlapping/out-of-order tails and T[0] are outside.",
@@ -17,6 +22,11 @@ checks = {
    note="Layouts and leaf types case-split; values solver-quantified. Decimal rendering and pgx/Postgres COPY are outside; JSON->client mapping is C07/C14.",
    technique="go/ssa symbolic execution -> SMT (z3); native replay",
    design="5/C11"),
+ "C12": dict(
+   text="Bounded symbolic model checking of the real Filter.Accept (bytes, string, uint64, uint256 kinds; six operators), filterResults.add/accept as used by processLog, and Integration.Filter/glf address+topic pushdown: field values (and byte-string arguments) are symbolic; z3 decides result == reference predicate, row emitted <=> and/or fold, and accepted => not excluded by the address/topic lists sent to eth_getLogs.",
+   note="Integer filter arguments are boundary constants; fold/pushdown arguments are constants with symbolic log contents. filter_ref lookups are not covered here. eth_getLogs filter semantics assumed as documented.",
+   technique="go/ssa symbolic execution -> SMT (z3); native replay",
+   design="5/C12"),
  "C13": dict(
    text="Bounded symbolic model checking of the decode gate in processLog (topic count and first topic vs stored signature hash, all topic bytes symbolic, topic counts 0..5) and of Event.Signature/Input.Signature against a reference renderer with a symbolic event name over 7 nested tuple/array shapes.",
    note="Keccak-256 is trusted (computed natively by the engine on concrete input; one known-answer vector as smoke test). Layouts/shapes case-split.",
@@ -30,7 +40,7 @@ checks = {
 }
 not_applicable = {
 }
-pending = ["C01","C02","C03","C04","C05","C06","C07","C08","C12","C14","C15","C16","C18","C19","C20"]
+pending = ["C01","C02","C03","C04","C05","C06","C08","C14","C15","C16","C18","C19","C20"]
 m = {
  "version": 1,
  "setup_cmd": "cd /verif/gosym && GOFLAGS=-mod=mod GOPROXY=off GOSUMDB=off GOTOOLCHAIN=local go build -o /verif/bin/gosym .",
